@@ -330,7 +330,10 @@ impl NarrowedShape {
         match &mut self.types {
             NarrowingShape::Narrowed(types) => {
                 for s in types.iter() {
-                    if s.equivalent(&shape, symbol_table) {
+                    // `equivalent` accepts a tuple or list that is contained
+                    // in the other one. Only a candidate that says the same
+                    // both ways is a duplicate, `{a, b}` is not one of `{a}`.
+                    if s.equivalent(&shape, symbol_table) && shape.equivalent(s, symbol_table) {
                         return;
                     }
                 }
